@@ -45,5 +45,5 @@ def run(chk, ix, tier):
         (T.t_abort_wiring, ()),
         (t_generic, ()),
     ])
-    for r, n in (("V1", 8), ("V2", 1), ("V3", 3), ("V4", 1), ("V5", 2), ("V6", 10), ("V7", 5), ("S1", 8), ("RF5", 10), ("RF7", 8)):
+    for r, n in (("V1", 8), ("V2", 1), ("V3", 3), ("V4", 1), ("V5", 2), ("V6", 10), ("V7", 3), ("S1", 8), ("RF5", 10), ("RF7", 8)):
         chk.require_instances(r, n)
